@@ -440,6 +440,7 @@ package session
 //@   ensures[C09] @always old(clock) <= incomingMsgTimer.lastUpdate && incomingMsgTimer.lastUpdate <= clock
 //@   ensures[C14,C09] @probeanswered imp(old(s.state) == WaitingTestReqAnswer, s.state == SuccessfulLogged)
 //@   ensures[C16,C09] @otherwise imp(old(s.state) != WaitingTestReqAnswer, s.state == old(s.state))
+//@   ensures[C09,C06] @quiet trigN == old(trigN) && trigAt == old(trigAt)
 
 // ---- timer goroutines (C08, C09) ---------------------------------------------------------------
 // tkN: expiries of the timer the goroutine waits on; fireN: what it did about them.
